@@ -1157,6 +1157,24 @@ class Interp:
 
     def loop(self, n, st, i):
         is_while = isinstance(n, ast.While)
+        if not is_while and i == 0 and not getattr(n, '_desugared', False):
+            # for x in self._helper(...):   ==   _it = self._helper(...);  for x in _it:
+            tsc = self.top_self_call(n.iter)
+            if tsc and not tsc[2]:
+                nm = '_iter_%d' % n.lineno
+                n2 = getattr(n, '_desugar', None)
+                if n2 is None:
+                    n2 = ast.copy_location(type(n)(target=n.target, iter=ast.copy_location(ast.Name(id=nm, ctx=ast.Load()), n.iter),
+                                                   body=n.body, orelse=n.orelse), n)
+                    ast.fix_missing_locations(n2)
+                    n2._desugared = True
+                    n._desugar = n2
+
+                def cont(s_, rt, rs):
+                    self.assign(s_, ast.copy_location(ast.Name(id=nm, ctx=ast.Store()), n.iter), rt, n.lineno, None, rs)
+                    yield from self.loop(n2, s_, 0)
+                yield from self.splice(st, tsc[0], tsc[1], tsc[2], cont)
+                return
         s = st.copy()
         const_true = False
         if is_while:
@@ -1179,7 +1197,10 @@ class Interp:
                 yield c, 'loopcut'
             return
         b = s.copy()
-        self.add(b, Ev('ITER', n.lineno, i, None, None, {'node': n}))
+        self.add(b, Ev('ITER', n.lineno, i, None, None,
+                       {'node': n, 'iter_tags': self.tags(b, n.iter) if not is_while else frozenset(),
+                        'iter_field': None if is_while else (self_field(n.iter) if isinstance(n.iter, ast.Attribute) else
+                                                             b.alias.get(n.iter.id) if isinstance(n.iter, ast.Name) else None)}))
         if not is_while:
             self.assign(b, n.target, self.tags(b, n.iter), n.lineno, None, elemof(self.shape(b, n.iter)))
             al = iter_field_alias(n.iter)
